@@ -322,6 +322,8 @@ func HandleSetFileInfo(cc *hotline.ClientConn, t *hotline.Transaction) (res []ho
 			if err != nil {
 				return res
 			}
+			// The new name is a single path element: it must not take the file out of the folder it is in.
+			hlFile.Name = filepath.Base(filepath.Join("/", hlFile.Name))
 
 			err = hlFile.Move(fileDir)
 			if os.IsNotExist(err) {
